@@ -76,6 +76,13 @@ where
 
         let replay = {
             let mut state = self.state.lock();
+            // Load the fee recipient before the first replayed transaction, as the parallel path
+            // does before it starts its workers: a database error on that account is reported at
+            // the replay boundary on every path, not at whichever transaction pays the first fee.
+            // After a parallel run the account is already cached and this reads nothing.
+            state
+                .basic_ref(self.env.beneficiary)
+                .map_err(|error| GrevmError { txid: start, error: EVMError::Database(error) })?;
             let mut evm = build_evm(
                 &mut *state,
                 self.cfg.clone(),
